@@ -116,6 +116,6 @@ def R_lost_updates(run, rule="RL"):
         for (line, name, ty, field) in dead:
             run.bad(rule, "lost-update@%s:%s.%s" % (fn.path, name, field), "%s stores into `%s.%s` (a local %s) and never reads `%s` again: the update is made to a copy and lost" % (
                 fn.path, name, field, ty.rsplit("::", 1)[-1], name), loc=fn.loc(line))
-    run.floor(rule, "field stores into local values examined", total, 40)
+    run.floor(rule, "field stores into local values examined", total, 20)
     if total:
         run.ok(rule, "lost-update:none", detail="%d field stores into local values, each read afterwards" % total)
